@@ -1004,6 +1004,14 @@ class Job:
         # restored together with it.
         self.statepoint.__dict__.setdefault("_jobs", []).append(self)
 
+    def __copy__(self):
+        # Shallow copies share the state point object (see __setstate__), which
+        # must exist for that: instantiate it before the state is copied.
+        self.statepoint
+        result = self.__class__.__new__(self.__class__)
+        result.__setstate__(self.__getstate__())
+        return result
+
     def __deepcopy__(self, memo):
         cls = self.__class__
         result = cls.__new__(cls)
